@@ -124,7 +124,7 @@ def e1_case(ctx, m, args):
     impl = lpdump.dump_impl(m.solver, e1err.colkey(m, ids))
     req = e1err.request("kmpe", m, ids, args)
     d = e1.compare(ctx, "E1_kMinPathError_LP", "kmpe", m, impl, req, args)
-    if d:
+    if d and ctx.engines.get("E1_kMinPathError_LP", {}).get("disagreements", 0) <= 3:   # keep room for concrete failing inputs
         ctx.report("E1 correspondence broken: LP of kMinPathError differs from ErrEnc.encode_kmpe: " + "; ".join(d[:3]),
                    {"class": "kMinPathError", "args": errlib.describe(args), "diff": d[:12]}, concrete=False)
     return impl, d
@@ -340,7 +340,11 @@ def run(ctx):
                 "solution_weights_superset, path_length_ranges/factors (int type), length_attr, edge and node origin; tiny stream: <= 6 edges, weights <= 4, "
                 "integer type, k <= 3, compared with the exhaustive optimum; cyclic stream: kMinPathErrorCycles on <= 5-node digraphs + the figure-eight. "
                 "non-trivial = LP has more than 12 rows / graph has a cycle")
-    witnesses(ctx)
+    for wfun in (witnesses, lambda c: c07.witness_6(c, "kMinPathError")):
+        try:
+            wfun(ctx)
+        except Exception as e:
+            ctx.report(f"the recorded witness instances raised {e!r}", {"witness": "C08"})
     run_dag(ctx, ctx.budget(170, 5000), tiny=False)
     run_dag(ctx, ctx.budget(160, 5000), tiny=True)
     run_cyclic(ctx, ctx.budget(50, 1500))
